@@ -3,6 +3,7 @@ import LalModel.Props.C01
 #print axioms Lal.Props.C01.flv_sub_contiguous
 #print axioms Lal.Props.C01.pubLog_is_published
 #print axioms Lal.Props.C01.live_part_decodes_rtmp
+#print axioms Lal.Props.C01.push_form_decodes
 #print axioms Lal.Props.C01.live_part_decodes_flv
 #print axioms Lal.Props.C01.recording_contiguous
 #print axioms Lal.Props.C01.zero_len_dropped
